@@ -1457,3 +1457,78 @@ func c19r7(c *Ctx, r *Report) {
 	}
 	r.floor("separator appends checked against the classification", n, 1)
 }
+
+// c01r6: the text of a term is the user's query text. On the way from parseTerms' query parameter to the
+// `text` field of a term, the characters may only be case-folded, accent-normalised, split and sliced; the
+// only rewrite is the removal of the backslash of an escaped space. Any other substitution rewrites characters
+// the user typed (D34: `\ ` was implemented by substituting a TAB before splitting and turning every TAB of
+// a token back into a space — a TAB typed in the query became a space: the line containing the TAB was dropped
+// and a line with a space shown).
+func c01r6(c *Ctx, r *Report) {
+	l := c.L
+	r.rule("C01-R6", "D (census of the transformers on the data path)", "P1",
+		"every call on the data path from parseTerms' query parameter to the text stored in a term is one of: the module's own splitter or a library split, strings.ToLower, algo.NormalizeRunes, strings.HasPrefix/HasSuffix (tests), string/rune conversions, or a strings.Replace/ReplaceAll whose `old` operand is a constant that contains a backslash",
+		"characters typed in the query are rewritten before matching: a literal TAB becomes a space, so a matching line is dropped and a non-matching one is shown")
+	pt := l.Fn("fzf", "parseTerms")
+	if pt == nil || len(pt.Params) < 4 {
+		r.unest("anchors", token.NoPos, nil, "anchor parseTerms", "cannot resolve")
+		return
+	}
+	str := pt.Params[3]
+	// the sinks: values stored into the `text` field of a term literal
+	var sinks []ssa.Value
+	eachInstr(pt, func(in ssa.Instruction) {
+		if st, ok := in.(*ssa.Store); ok {
+			if fld, _ := fieldOf(st.Addr); fld != nil && fld.Name() == "text" {
+				sinks = append(sinks, st.Val)
+			}
+		}
+	})
+	if len(sinks) == 0 {
+		r.unest("anchors", token.NoPos, pt, "the store into term.text in parseTerms", "cannot find it")
+		return
+	}
+	onPath := map[ssa.Value]bool{}
+	for _, s := range sinks {
+		for w := range backwardSlice(s, func(*ssa.CallCommon) bool { return true }, nil) {
+			onPath[w] = true
+		}
+	}
+	fromStr := forwardDerived(pt, []ssa.Value{str}, func(*ssa.CallCommon) bool { return true })
+	n := 0
+	seenCallee := map[string]int{}
+	eachInstr(pt, func(in ssa.Instruction) {
+		call, ok := in.(*ssa.Call)
+		if !ok || !onPath[call] || !fromStr[call] {
+			return
+		}
+		name := calleeName(call.Common())
+		n++
+		seenCallee[name]++
+		key := fmt.Sprintf("%s:%s #%d on the query's path to term.text", relName(pt), strings.TrimPrefix(name, modPath+"/src"), seenCallee[name])
+		why := ""
+		switch {
+		case name == "strings.ToLower", name == modPath+"/src/algo.NormalizeRunes", name == "(*regexp.Regexp).Split", name == "strings.Split", name == "strings.Fields":
+		case call.Common().StaticCallee() != nil && call.Common().StaticCallee().Pkg == pt.Pkg:
+			// the module's own splitter: must not itself call a replacing function
+			callee := call.Common().StaticCallee()
+			eachInstr(callee, func(i2 ssa.Instruction) {
+				if c2, ok := i2.(*ssa.Call); ok {
+					switch calleeName(c2.Common()) {
+					case "strings.ReplaceAll", "strings.Replace", "strings.Map", "(*strings.Replacer).Replace", "(*regexp.Regexp).ReplaceAllString":
+						why = fmt.Sprintf("%s rewrites the text with %s", callee.Name(), calleeName(c2.Common()))
+					}
+				}
+			})
+		case name == "strings.ReplaceAll" || name == "strings.Replace":
+			k, ok := call.Call.Args[1].(*ssa.Const)
+			if !ok || k.Value == nil || !strings.Contains(k.Value.ExactString(), `\\`) {
+				why = "it replaces a sequence that is not an escape (no backslash in it): ordinary characters of the query are rewritten"
+			}
+		default:
+			why = "not one of the transformers a query may pass through"
+		}
+		r.check(why == "", key, call.Pos(), pt, "a permitted transformer", why)
+	})
+	r.floor("calls on the path from the query to term.text", n, 3)
+}
